@@ -164,7 +164,9 @@ def plain_simple(rng):
 
 
 def gen_macro(rng):
-    name = rng.choice(['foo', 'bar', 'm1', 'dup2', 'xadd'])
+    # one definition per name and program (what a redefinition means for
+    # earlier / later calls is not documented)
+    name = rng.choice(['foo', 'bar', 'm', 'dup', 'xadd']) + f'{rng.getrandbits(28):x}'
     nargs = rng.randrange(0, 3)
     argnames = [['arg1', 'n', 'val', 'x1', 'data'][i] for i in range(nargs)]
     template = []
